@@ -4,7 +4,19 @@ Usage: seedprompt.py <ID> <worktree> [n]"""
 import json, sys
 pid, wt = sys.argv[1], sys.argv[2]
 n = sys.argv[3] if len(sys.argv) > 3 else "3"
+first = int(sys.argv[4]) if len(sys.argv) > 4 else 1      # number of the first change of this round
+import glob, os
+prev = []
+for d in sorted(glob.glob('/verif/seeded/%s-*' % pid)):
+    try:
+        prev.append(json.load(open(os.path.join(d, 'meta.json'))).get('summary', '')[:300])
+    except Exception:
+        pass
 p = [json.loads(l) for l in open('/verif/properties.jsonl') if json.loads(l)['id'] == pid][0]
+last = first + int(n) - 1
+AVOID = ""
+if first > 1 and prev:
+    AVOID = "Earlier rounds already produced the changes summarised below - yours must be DIFFERENT in mechanism (other functions, other clauses of the property, other kinds of trigger), not variations of them:\n" + "\n".join("  - " + x for x in prev) + "\n\n"
 print(f"""You are testing how well a Go library's test suite protects one of its semantic properties. The library is miekg/dns (a DNS library). You have your own scratch git worktree of it at {wt} — work ONLY there (do not touch /repo or /verif, do not read /verif).
 
 The property (call it {pid}): "{p['title']}"
@@ -17,7 +29,7 @@ Relevant files: {', '.join(p['anchors']['files'])}
 
 YOUR TASK: produce {n} DIFFERENT, independent, realistic changes to the library's non-test source code, each of which BREAKS this property while the package still compiles and the ENTIRE existing test suite still passes (`cd {wt} && GOFLAGS=-mod=mod GOPROXY=off go test -vet=off -count=1 ./...` — never set GOTOOLCHAIN or GOSUMDB; the sandbox is offline). Each change should look like a plausible refactoring slip or "optimisation" a maintainer could make, and should need something SPECIFIC to manifest — an unusual input, a boundary value, a multi-step sequence of operations, a particular interleaving or fault position, or two cooperating sites that each look fine alone — NOT something ordinary use would expose at once. Prefer subtle breaks in different mechanisms/files over several variants of one.
 
-For each change i = 1..{n} deliver, under {wt}/../seed-out-{pid}/<i>/ (create the directory; it is outside the worktree):
+{AVOID}For each change i = {first}..{last} deliver, under /tmp/seed-out-{pid}/<i>/ (create the directory; it is outside the worktree):
   - patch.diff : `git diff` of the change against the pinned HEAD (source files only, no test files), applying cleanly with `git apply` on a clean checkout
   - demo_test.go : a Go test in package dns (or dns_test) that FAILS with the change applied and PASSES on the clean checkout; it must be deterministic. (It is kept outside the repo; to run it copy it into the worktree temporarily.)
   - meta.json : {{"property": "{pid}", "summary": "<one line>", "needs": "<what specific input/sequence/schedule is needed for it to manifest>", "files": [...], "ran": ["<commands you ran and their outcome>"]}}
